@@ -29,8 +29,47 @@ def _has_sym(a):
     return False
 
 
+def _fix_key(key):
+    """Index keys that are object arrays of plain integers become real integer arrays."""
+    if isinstance(key, np.ndarray) and key.dtype == object:
+        if _has_sym(key):
+            raise PathAbort("symbolic array used as index")
+        return np.asarray(key.tolist(), dtype=int).reshape(key.shape)
+    if isinstance(key, tuple):
+        return tuple(_fix_key(k) for k in key)
+    return key
+
+
 class SymArray(np.ndarray):
     """Object ndarray holding Sym / float elements."""
+
+    _kind = None        # 'f' / 'i': the numpy dtype this array stands for (strings assigned to it are parsed)
+
+    def __array_finalize__(self, obj):
+        if obj is not None:
+            self._kind = getattr(obj, "_kind", None)
+
+    def __getitem__(self, key):
+        return np.ndarray.__getitem__(self, _fix_key(key))
+
+    def __setitem__(self, key, value):
+        if self.dtype == object and self._kind in ("f", "i"):
+            value = self._parse_strings(value)
+        np.ndarray.__setitem__(self, _fix_key(key), value)
+
+    def _parse_strings(self, value):
+        from .tokens import symfloat, symint
+        conv = symfloat if self._kind == "f" else symint
+        if isinstance(value, (str, np.str_)):
+            return conv(builtins.str(value))
+        if isinstance(value, (list, tuple)) and any(isinstance(v, (str, np.str_, list, tuple)) for v in value):
+            return [self._parse_strings(v) for v in value]
+        if isinstance(value, np.ndarray) and value.dtype.kind in "US":
+            out = np.empty(value.shape, dtype=object)
+            for idx in np.ndindex(value.shape):
+                out[idx] = conv(builtins.str(value[idx]))
+            return out
+        return value
 
     def astype(self, dtype, *args, **kwargs):
         if self.dtype != object:
@@ -324,13 +363,17 @@ class SymNP:
         if dtype is None or is_float_dtype(dtype):
             out = np.empty(shape, dtype=object)
             out[...] = value
-            return out.view(SymArray)
+            out = out.view(SymArray)
+            out._kind = "f"
+            return out
         if is_int_dtype(dtype):
             # integer work arrays may receive symbolic integers (bond partners, serial numbers);
             # attribute converters turn them into real int arrays again when everything is concrete
             out = np.empty(shape, dtype=object)
             out[...] = builtins.int(value)
-            return out.view(SymArray)
+            out = out.view(SymArray)
+            out._kind = "i"
+            return out
         return None
 
     def zeros(self, shape, dtype=None, **kw):
